@@ -242,22 +242,36 @@ def stopAll : List (LSpec × Nat) → K → K
   | [], k => k
   | (l, fd) :: rest, k => stopAll rest (stopListener l fd k)
 
+/-- which version of two code paths is modelled.  `asIs` is linux_io.c as committed; the two flags are the
+    candidate repairs /verif/fixes/Fstartup-1.diff and Fstartup-2.diff (the tie determines by a probe run which
+    version the tree under test has). -/
+structure Code where
+  destroyAtEnd : Bool        -- run_io calls destroy_all_peers / destroy_all_http_connections before loop->destroy
+  restoreOnPipeFail : Bool   -- register_signal_handler resets SIGINT / SIGTERM when ignoring SIGPIPE fails
+  deriving DecidableEq, Repr
+
+def Code.asIs : Code := ⟨false, false⟩
+def Code.repaired : Code := ⟨true, true⟩
+
 structure Cfg where
   localOnly : Bool
   user : Bool          -- config->user_name != NULL
   foreground : Bool
+  code : Code
   deriving DecidableEq, Repr
 
 def listeners (c : Cfg) : List LSpec := if c.localOnly then listenersLocal else listenersAll
 
 /-- register_signal_handler (:536-552) -/
-def registerSignals (k : K) : Bool × K :=
+def registerSignals (restore : Bool) (k : K) : Bool × K :=
   let r1 := k.sys (.signal .term .handler)
   if r1.1 = false then (false, r1.2) else
   let r2 := r1.2.sys (.signal .int .handler)
   if r2.1 = false then (false, r2.2.emit (.signal .term .dfl true)) else
   let r3 := r2.2.sys (.signal .pipe .ign)
-  if r3.1 = false then (false, r3.2) else (true, r3.2)
+  if r3.1 = false then
+    (false, if restore then (r3.2.emit (.signal .int .dfl true)).emit (.signal .term .dfl true) else r3.2)
+  else (true, r3.2)
 
 /-- unregister_signal_handler (:554-558) -/
 def unregisterSignals (k : K) : K :=
@@ -320,21 +334,26 @@ def IoEnd.ret : IoEnd → Int
   | .servers e => e.ret
   | _ => -1
 
+/-- the end of run_io: (repaired code: destroy what the first accept passes created,) destroy the loop,
+    reset the handlers -/
+def finish (c : Cfg) (k : K) : K :=
+  unregisterSignals ((if c.code.destroyAtEnd then (k.emit .destroyPeers).emit .destroyConns else k).emit .destroy)
+
 /-- run_io (:767-803) -/
 def runIo (c : Cfg) (k : K) : IoEnd × K :=
-  let s := registerSignals k
+  let s := registerSignals c.code.restoreOnPipeFail k
   if s.1 = false then (.signalFailed, s.2) else
   let i := s.2.sys .init
   if i.1 = false then (.initFailed, unregisterSignals { i.2 with goAhead := false }) else
   let r := runServers c (listeners c) i.2
-  (.servers r.1, unregisterSignals (r.2.emit .destroy))
+  (.servers r.1, finish c r.2)
 
 /-- run_io up to the point where every listener is up (or one failed): signal handlers, loop init, the
     start phase.  `none`: signal registration or loop init failed. -/
 def bootPhase (c : Cfg) (k : K) : Option (List (LSpec × Nat) × Bool × K) :=
-  if (registerSignals k).1 = false then none else
-  if ((registerSignals k).2.sys .init).1 = false then none else
-  some (startPhase (listeners c) ((registerSignals k).2.sys .init).2)
+  if (registerSignals c.code.restoreOnPipeFail k).1 = false then none else
+  if ((registerSignals c.code.restoreOnPipeFail k).2.sys .init).1 = false then none else
+  some (startPhase (listeners c) ((registerSignals c.code.restoreOnPipeFail k).2.sys .init).2)
 
 /-- first descriptor number the scripted kernel hands out -/
 def firstFd : Nat := 10
